@@ -64,19 +64,19 @@ def _run(ctx, arrays_fn):
     return arrays, out, eta0
 
 
-def _recurrence(ctx):
+def _recurrence(ctx, poles=2):
     f = ctx.index.function("fdtdx.fdtd.update.update_E")
     ctx.unit(f.where())
     curl = curl_oracle("H", "backward")
     c = Rat.atom("c")
     n = 0
     for eps_comps, sigma, coef_comps, c4 in itertools.product((1, 3), (False, True), (1, 3), (False, True)):
-        arrays, out, eta0 = _run(ctx, lambda sc: _arrays(sc, eps_comps, sigma, coef_comps, c4))
-        label = f"update_E[eps {'iso' if eps_comps == 1 else 'diag'},{'lossy' if sigma else 'lossless'},coefficients {'iso' if coef_comps == 1 else 'per-axis'},{'c4' if c4 else 'no c4'}]"
+        arrays, out, eta0 = _run(ctx, lambda sc: _arrays(sc, eps_comps, sigma, coef_comps, c4, poles=poles))
+        label = f"update_E[{poles} poles,eps {'iso' if eps_comps == 1 else 'diag'},{'lossy' if sigma else 'lossless'},coefficients {'iso' if coef_comps == 1 else 'per-axis'},{'c4' if c4 else 'no c4'}]"
         Enew = out.attrs["fields"].attrs["E"]
         Pnew = out.attrs["fields"].attrs["dispersive_P_curr"]
         Qnew = out.attrs["fields"].attrs["dispersive_P_prev"]
-        if not (isinstance(Enew, NdArr) and Enew.shape == (3,) and isinstance(Pnew, NdArr) and Pnew.shape == (2, 3) and isinstance(Qnew, NdArr) and Qnew.shape == (2, 3)):
+        if not (isinstance(Enew, NdArr) and Enew.shape == (3,) and isinstance(Pnew, NdArr) and Pnew.shape == (poles, 3) and isinstance(Qnew, NdArr) and Qnew.shape == (poles, 3)):
             ctx.ob("R36.1", label, False, "E of shape (3,), polarisation levels of shape (poles, 3)", (getattr(Enew, "shape", None), getattr(Pnew, "shape", None)), "(3,), (2, 3)")
             continue
         bad = None
@@ -86,7 +86,7 @@ def _recurrence(ctx):
             En = clean(Enew.data[i])
             a = c * to_rat(field_atom(f"se{i if eps_comps == 3 else 0}")) * eta0 * ie / 2 if sigma else Rat.const(0)
             dP = Rat.const(0)
-            for p in range(2):
+            for p in range(poles):
                 cc = i if coef_comps == 3 else 0
                 P, Q = to_rat(field_atom(f"P{p}_{i}")), to_rat(field_atom(f"Q{p}_{i}"))
                 want_P = to_rat(field_atom(f"a{p}_{cc}")) * P + to_rat(field_atom(f"b{p}_{cc}")) * Q + to_rat(field_atom(f"g{p}_{cc}")) * E
@@ -102,7 +102,7 @@ def _recurrence(ctx):
             if not resid.is_zero():
                 bad = bad or (f"Ampere residual, component {i}", resid.fmt()[:260], "0")
         n += 1
-        ctx.ob("R36.1", label, bad is None, "P' = c1 P + c2 P_prev + c3 E (+ c4 E'), P_prev' = P, and (1+a) E' = (1-a) E + c inv_eps curl H - inv_eps sum_p (P'_p - P_p) with a = c sigma eta0 inv_eps / 2 — identically in all symbols" + (f" — fails for {bad[0]}" if bad else ""), bad[1] if bad else "3 components, 2 poles", bad[2] if bad else "documented recurrence + discrete Ampere law")
+        ctx.ob("R36.1", label, bad is None, "P' = c1 P + c2 P_prev + c3 E (+ c4 E'), P_prev' = P, and (1+a) E' = (1-a) E + c inv_eps curl H - inv_eps sum_p (P'_p - P_p) with a = c sigma eta0 inv_eps / 2 — identically in all symbols" + (f" — fails for {bad[0]}" if bad else ""), bad[1] if bad else f"3 components, {poles} poles", bad[2] if bad else "documented recurrence + discrete Ampere law")
     ctx.require_count("R36.1 recurrence cases", n, 16)
 
 
@@ -148,6 +148,11 @@ def _acceptance(ctx):
     placement = {k: v for k, v in callers.items() if not k.startswith("fdtdx.dispersion.")}
     ok = all(placement.get(k) == v for k, v in want.items()) and callers.get("fdtdx.dispersion.compute_pole_coefficients") == {"compute_pole_coefficients_per_axis"}
     ctx.ob("R36.3", "pole-coefficient producers", ok, "the coefficient arrays painted at placement (device tables and uniform objects alike) come from compute_pole_coefficients_tensor, and the scalar convenience routine delegates to the guarded per-axis one", {k: sorted(v) for k, v in callers.items()}, {k: sorted(v) for k, v in want.items()})
+
+
+def run_thorough(ctx):
+    _recurrence(ctx, poles=1)
+    _recurrence(ctx, poles=4)
 
 
 def run(ctx):
